@@ -32,6 +32,8 @@ Rules are phrased over this canonical form so that behaviour-preserving respelli
  N24 `return next((E for T in XS if C), D)` -> `for T in XS: if C: return E` then `return D`
  N25 `v = D.get(K)` tested with `v is [not] None` -> the tests become `K [not] in D`, the other reads of v become `D[K]`
  N26 a list display that is only iterated over or tested for membership (`for x in [a, b]`, `x in [a, b]`) is a tuple display
+ N26b an empty list standing in for "nothing" that is only measured or iterated (`len(E or [])`, `ds = E or []` used in len /
+     enumerate / zip / for only) is an empty tuple
  N27 `chain.from_iterable(map(F, XS))` -> `(m for c in XS for m in F(c))`;  N28 `list(<generator expression>)` -> the list comprehension
  N29 an annotated assignment inside a function `x: T = e` is `x = e`
  N31 `names = set(CHAIN)` that is only asked `x in names` is CHAIN for that purpose
@@ -62,6 +64,13 @@ def _captured(fn: ast.AST, name: str) -> bool:
 
 _PURE_CALLS = {'isinstance', 'issubclass', 'len', 'str', 'repr', 'type', 'hasattr', 'getattr', 'int', 'bool', 'float', 'cast',
                'list', 'tuple', 'set', 'dict', 'sorted', 'id', 'any', 'all', 'min', 'max'}
+
+
+def _dfs(n):
+    """nodes in program (depth-first, source) order"""
+    yield n
+    for c in ast.iter_child_nodes(n):
+        yield from _dfs(c)
 
 
 def _filter_independent(comp, body) -> bool:
@@ -278,6 +287,34 @@ class _Norm(ast.NodeTransformer):
         # N26: a list display that is only iterated over is a tuple display
         if isinstance(n.iter, ast.List):
             n.iter = ast.copy_location(ast.Tuple(n.iter.elts, ast.Load()), n.iter)
+        # `for t in iter(XS)` is `for t in XS`
+        if isinstance(n.iter, ast.Call) and isinstance(n.iter.func, ast.Name) and n.iter.func.id == 'iter' and len(n.iter.args) == 1 \
+                and not n.iter.keywords:
+            n.iter = n.iter.args[0]
+        # N34c: `for y in (b for a in XS for b in YS): BODY` -> `for a in XS: for b in YS: BODY[y:=b]` (a generator: consumed lazily)
+        it = n.iter
+        if (isinstance(it, ast.GeneratorExp) and len(it.generators) == 2 and not any(g.is_async or g.ifs for g in it.generators)
+                and isinstance(it.elt, ast.Name) and isinstance(it.generators[1].target, ast.Name)
+                and it.elt.id == it.generators[1].target.id and isinstance(n.target, ast.Name) and not n.orelse and self.fn_stack):
+            g1, g2 = it.generators
+            fn = self.fn_stack[-1]
+            inside = {id(x) for x in ast.walk(it)}
+            gen_names = {x.id for g in (g1, g2) for x in ast.walk(g.target) if isinstance(x, ast.Name)}
+            yv = n.target.id
+            clash = any(isinstance(x, ast.Name) and x.id in gen_names - {yv} and id(x) not in inside for x in ast.walk(fn))
+            if not clash:
+                bv = g2.target.id
+                if bv != yv:
+                    for b in n.body:
+                        for x in [x for x in ast.walk(b) if isinstance(x, ast.Name) and x.id == yv]:
+                            x.id = bv
+                for g in (g1, g2):
+                    for x in ast.walk(g.target):
+                        if isinstance(x, ast.Name):
+                            x.ctx = ast.Store()
+                inner = ast.copy_location(ast.For(g2.target, g2.iter, n.body, [], lineno=n.lineno), n)
+                inner = self.visit_For(inner) if isinstance(g2.iter, (ast.Tuple, ast.List)) else inner
+                return ast.copy_location(ast.For(g1.target, g1.iter, [inner] if isinstance(inner, ast.stmt) else inner, [], lineno=n.lineno), n)
         # N34 (direct form): `for y in (x for x in XS if C): BODY` -> `for x in XS: if C: BODY[y:=x]`
         it = n.iter
         if (isinstance(it, (ast.GeneratorExp, ast.ListComp)) and len(it.generators) == 1 and not it.generators[0].is_async
@@ -312,7 +349,61 @@ class _Norm(ast.NodeTransformer):
         self.generic_visit(n)
         return n
 
+    @staticmethod
+    def _measured_only(fn):
+        """N26b: an empty list that stands in for "nothing" and is only measured or iterated over (`len(E or [])`,
+        `ds = E or []` with ds used in len()/enumerate()/zip()/for/`in` only; likewise `E if E else []`) is an empty tuple"""
+        parents = {}
+        for x in ast.walk(fn):
+            for c in ast.iter_child_nodes(x):
+                parents[id(c)] = x
+
+        def passive(use):
+            """the value at `use` is only measured / iterated"""
+            p = parents.get(id(use))
+            if isinstance(p, ast.Call) and isinstance(p.func, ast.Name) and p.func.id in ('len', 'enumerate', 'zip', 'reversed', 'iter',
+                                                                                          'any', 'all', 'tuple') and use in p.args:
+                return True
+            if isinstance(p, (ast.For, ast.comprehension)) and p.iter is use:
+                return True
+            if isinstance(p, ast.Compare) and len(p.ops) == 1 and isinstance(p.ops[0], (ast.In, ast.NotIn)) and p.comparators[0] is use:
+                return True
+            return False
+
+        def empties(e):
+            """the empty-list leaves of a default expression: `X or []`, `X if c else []`"""
+            if isinstance(e, ast.BoolOp) and isinstance(e.op, ast.Or) and isinstance(e.values[-1], ast.List) and not e.values[-1].elts:
+                return [(e.values, len(e.values) - 1)]
+            if isinstance(e, ast.IfExp):
+                out = []
+                if isinstance(e.orelse, ast.List) and not e.orelse.elts:
+                    out.append((e, 'orelse'))
+                if isinstance(e.body, ast.List) and not e.body.elts:
+                    out.append((e, 'body'))
+                return out
+            return []
+
+        def retuple(slots):
+            for holder, where in slots:
+                if isinstance(holder, list):
+                    holder[where] = ast.copy_location(ast.Tuple([], ast.Load()), holder[where])
+                else:
+                    setattr(holder, where, ast.copy_location(ast.Tuple([], ast.Load()), getattr(holder, where)))
+        for x in list(ast.walk(fn)):
+            if isinstance(x, (ast.BoolOp, ast.IfExp)) and empties(x):
+                if passive(x):
+                    retuple(empties(x))
+                    continue
+                p = parents.get(id(x))
+                if isinstance(p, ast.Assign) and len(p.targets) == 1 and isinstance(p.targets[0], ast.Name) and p.value is x:
+                    v = p.targets[0].id
+                    stores = [y for y in ast.walk(fn) if isinstance(y, ast.Name) and y.id == v and not isinstance(y.ctx, ast.Load)]
+                    loads = [y for y in ast.walk(fn) if isinstance(y, ast.Name) and y.id == v and isinstance(y.ctx, ast.Load)]
+                    if len(stores) == 1 and loads and all(passive(y) for y in loads) and not _captured(fn, v):
+                        retuple(empties(x))
+
     def _visit_fn(self, n):
+        self._measured_only(n)
         self.fn_stack.append(n)
         self._search_loops(n, n.body, True)
         self._next_to_loop(n, n.body)
@@ -380,8 +471,13 @@ class _Norm(ast.NodeTransformer):
                     and len(e.args) == 2 and not e.keywords and _is_chain(e.args[0]):
                 b = e.args[1]
                 return isinstance(b, ast.Constant) or _is_chain(b) or (isinstance(b, ast.Tuple) and all(_is_chain(x) for x in b.elts))
+            def operand(x):
+                # a plain chain, a constant, or a view of a mapping held in a chain (`self._registered_classes.values()`)
+                return _is_chain(x) or isinstance(x, ast.Constant) or (
+                    isinstance(x, ast.Call) and isinstance(x.func, ast.Attribute) and x.func.attr in ('values', 'keys', 'items')
+                    and not x.args and not x.keywords and _is_chain(x.func.value) and isinstance(x.func.value, ast.Attribute))
             if isinstance(e, ast.Compare) and len(e.ops) == 1 and isinstance(e.ops[0], (ast.In, ast.NotIn, ast.Is, ast.IsNot)) \
-                    and all(_is_chain(x) or isinstance(x, ast.Constant) for x in (e.left, e.comparators[0])):
+                    and all(operand(x) for x in (e.left, e.comparators[0])):
                 return True
             return False
         for blk in _Norm._blocks(fn):
@@ -403,11 +499,27 @@ class _Norm(ast.NodeTransformer):
                 v = st.targets[0].id
                 chain_attrs = {n.attr for n in ast.walk(st.value) if isinstance(n, ast.Attribute)}
                 roots = {n.id for n in ast.walk(st.value) if isinstance(n, ast.Name)}
-                if v in args or chain_attrs & stored_attrs or _captured(fn, v):
+                if v in args or _captured(fn, v):
                     continue
+                limit = None
+                if chain_attrs & stored_attrs:
+                    # the chain is assigned in this function: fine when that happens in one later statement of this block whose
+                    # right-hand side is the last thing that reads the alias (`old = self.n; ..; self.n = K(old.a, old.b)`)
+                    later_ = blk[blk.index(st) + 1:]
+                    writers = [x for x in later_ if any(isinstance(n, ast.Attribute) and isinstance(n.ctx, (ast.Store, ast.Del))
+                                                        and n.attr in chain_attrs for n in ast.walk(x))]
+                    all_writers = [n for n in ast.walk(fn) if isinstance(n, ast.Attribute) and isinstance(n.ctx, (ast.Store, ast.Del))
+                                   and n.attr in chain_attrs]
+                    if len(writers) != 1 or not isinstance(writers[0], ast.Assign) or len(all_writers) != 1 \
+                            or not any(all_writers[0] is t for t in writers[0].targets):
+                        continue
+                    limit = writers[0]
                 stores = [n for n in ast.walk(fn) if isinstance(n, ast.Name) and n.id == v and not isinstance(n.ctx, ast.Load)]
+                # stores of the roots that come after the binding in program order (inlined code keeps the line numbers of the
+                # helper it came from, so positions cannot be compared)
+                order = {id(x): k for k, x in enumerate(_dfs(fn))}
                 root_stores = [n for n in ast.walk(fn) if isinstance(n, ast.Name) and n.id in roots and not isinstance(n.ctx, ast.Load)
-                               and (n.lineno, n.col_offset) > (st.lineno, st.col_offset)]
+                               and order.get(id(n), 0) > order.get(id(st), 0)]
                 if len(stores) != 1 or root_stores:
                     continue
                 loads = [n for n in ast.walk(fn) if isinstance(n, ast.Name) and n.id == v and isinstance(n.ctx, ast.Load)]
@@ -415,6 +527,11 @@ class _Norm(ast.NodeTransformer):
                 in_later = {id(n) for x in later for n in ast.walk(x)}
                 if not loads or any(id(n) not in in_later for n in loads):
                     continue
+                if limit is not None:
+                    before = later[:later.index(limit)]
+                    allowed = {id(n) for x in before for n in ast.walk(x)} | {id(n) for n in ast.walk(limit.value)}
+                    if any(id(n) not in allowed for n in loads):
+                        continue
                 for n in loads:
                     _replace(fn, n, ast.copy_location(copy.deepcopy(st.value), n))
                 blk.remove(st)
@@ -615,7 +732,7 @@ class _Norm(ast.NodeTransformer):
                     and isinstance(nx.body[-1], (ast.Return, ast.Raise)):
                 self._thread_guard(fn, s, nx)
             # N15: an if-chain that only selects a value for a temporary used once, in the very next statement
-            if isinstance(s, ast.If) and nx is not None and isinstance(nx, (ast.Expr, ast.Assign, ast.Return, ast.Raise)):
+            if isinstance(s, ast.If) and nx is not None and isinstance(nx, (ast.Expr, ast.Assign, ast.Return, ast.Raise, ast.For)):
                 sunk = self._sink_selector(fn, s, nx)
                 if sunk is not None:
                     out.append(sunk)
@@ -913,10 +1030,26 @@ class _Norm(ast.NodeTransformer):
         import copy
         leaves = []
 
-        def simple(e) -> bool:
+        def atom(e) -> bool:
             if isinstance(e, ast.Tuple):
                 return all(isinstance(x, ast.Constant) or _is_chain(x) for x in e.elts)
             return isinstance(e, ast.Constant) or _is_chain(e)
+
+        # a constructor-like call `K(a, b)` over plain operands may be sunk too when the consuming statement is itself one call
+        # over plain operands (`R.add(k, v)`): nothing that could observe the order of evaluation lies between the two
+        calls_nx = [c for c in ast.walk(nx) if isinstance(c, ast.Call)]
+        plain_consumer = (len(calls_nx) == 1 and _is_chain(calls_nx[0].func) and not any(isinstance(a, ast.Starred) for a in calls_nx[0].args)
+                          and all(atom(a) for a in calls_nx[0].args) and all(k.arg is not None and atom(k.value) for k in calls_nx[0].keywords)
+                          and isinstance(nx, ast.Expr) and nx.value is calls_nx[0])
+
+        # `for t in v: BODY` consuming the selected collection: each arm evaluates its collection and loops at once, whatever it is
+        loop_consumer = isinstance(nx, ast.For) and isinstance(nx.iter, ast.Name) and not nx.orelse
+
+        def simple(e) -> bool:
+            if atom(e) or loop_consumer:
+                return True
+            return (plain_consumer and isinstance(e, ast.Call) and _is_chain(e.func) and not e.keywords
+                    and all(atom(a) for a in e.args))
 
         def collect(n: ast.If) -> bool:
             # every arm ends (after whatever else it does) in a nested selection or in `v = simple value`
@@ -928,8 +1061,8 @@ class _Norm(ast.NodeTransformer):
                     if not collect(last):
                         return False
                     continue
-                if isinstance(last, ast.Raise):
-                    continue
+                if isinstance(last, (ast.Raise, ast.Return, ast.Continue, ast.Break)):
+                    continue        # this arm leaves: the consumer does not run for it
                 if not (isinstance(last, ast.Assign) and len(last.targets) == 1 and isinstance(last.targets[0], ast.Name)
                         and simple(last.value)):
                     return False
@@ -948,6 +1081,8 @@ class _Norm(ast.NodeTransformer):
         if len(loads) != 1 or len(stores) != len(leaves):
             return None
         if not any(loads[0] is n for h in _head_exprs(nx) for n in ast.walk(h)):
+            return None
+        if isinstance(nx, ast.For) and not (loop_consumer and loads[0] is nx.iter):
             return None
         for arm in leaves:
             val = arm[-1].value
@@ -1392,10 +1527,45 @@ def unroll_display_loops(tree: ast.Module) -> ast.Module:
 
 def normalize(tree: ast.Module, ext=None) -> ast.Module:
     tree = propagate_module_constants(tree, ext)
+    from .normalize2 import pre_normalize
+    tree = pre_normalize(tree)
     tree = unroll_display_loops(tree)
     tree = _Norm().visit(tree)
     # a second pass: folding temporaries (N5) and boolean returns (N14) exposes new instances of the expression-level rewrites
+    tree = pre_normalize(tree)
     tree = unroll_display_loops(tree)
     tree = _Norm().visit(tree)
+    tree = _DoubleNot().visit(tree)
+    tree = unroll_display_loops(tree)       # display loops that the last pass exposed (nested generator fusion)
     ast.fix_missing_locations(tree)
     return tree
+
+
+class _DoubleNot(ast.NodeTransformer):
+    """`not not x` in a test position (if / while / conditional expression / operand of and, or, not) is x"""
+
+    @staticmethod
+    def _strip(e):
+        while isinstance(e, ast.UnaryOp) and isinstance(e.op, ast.Not) and isinstance(e.operand, ast.UnaryOp) \
+                and isinstance(e.operand.op, ast.Not):
+            e = e.operand.operand
+        return e
+
+    def visit_If(self, n):
+        self.generic_visit(n)
+        n.test = self._strip(n.test)
+        return n
+
+    visit_While = visit_If
+    visit_IfExp = visit_If
+
+    def visit_BoolOp(self, n):
+        self.generic_visit(n)
+        n.values = [self._strip(v) for v in n.values]
+        return n
+
+    def visit_UnaryOp(self, n):
+        self.generic_visit(n)
+        if isinstance(n.op, ast.Not):
+            n.operand = self._strip(n.operand)
+        return n
